@@ -12,7 +12,8 @@ EXTENDS Naturals, Sequences, FiniteSets, TLC, SequencesExt, Json, IOUtils
 Alpha == {"foo", "bar", "utils"}
 Dirs == UNION {[1..n -> Alpha] : n \in 0..2}
 Stems == Alpha \cup {"__init__"}
-Places == {"outside", "root1", "root2", "root3", "link_into_root", "link_out_of_root", "outside_named_base"}
+\* root_prefix_sibling: a directory NEXT to a library root whose name merely starts with the root's name (site-packages2)
+Places == {"outside", "root1", "root2", "root3", "link_into_root", "link_out_of_root", "outside_named_base", "root_prefix_sibling"}
 Allows == {<<>>, <<"foo">>, <<"zzz">>, <<"bar", "utils">>, <<"zzz", "utils", "foo">>}
 Cases == {[kind |-> "real", dirs |-> d, stem |-> s, place |-> p, allow |-> a, allowset |-> a # <<>>]
             : d \in Dirs, s \in Stems, p \in Places, a \in Allows}
